@@ -136,6 +136,8 @@ def creation_sql(catalog: str) -> str:
 
 
 def insert_table_comment_sql(catalog: str, schema: str, table: str, comment: str) -> str:
+    # escape single quotes in the comment
+    comment = comment.replace("'", "''")
     return f"""
         INSERT INTO {catalog}.information_schema._fs_tables_ext
         values ('{catalog}', '{schema}', '{table}', '{comment}')
